@@ -134,6 +134,56 @@ fn parse_prefix(name: &str, fragment: &yaml::Yaml) -> Result<Option<Prefix>, Err
     }
 }
 
+/* The length of a router advertisement option is one octet counting units of 8 octets (RFC4861
+ * section 4.6), including the option header.  Values that do not fit cannot be advertised.
+ */
+const MAX_OPTION_LEN: usize = 255 * 8;
+const MAX_RDNSS_SERVERS: usize = (MAX_OPTION_LEN - 8) / 16;
+const MAX_DNSSL_LEN: usize = MAX_OPTION_LEN - 8;
+const MAX_CAPTIVE_PORTAL_LEN: usize = MAX_OPTION_LEN - 2;
+
+pub fn check_rdnss(name: &str, servers: usize) -> Result<(), Error> {
+    if servers > MAX_RDNSS_SERVERS {
+        Err(Error::InvalidConfig(format!(
+            "{}: {} IPv6 servers do not fit in a router advertisement option (at most {})",
+            name, servers, MAX_RDNSS_SERVERS
+        )))
+    } else {
+        Ok(())
+    }
+}
+
+pub fn check_dnssl(name: &str, domains: &[String]) -> Result<(), Error> {
+    /* Each domain is encoded as its labels (each with a length octet) and a terminating zero. */
+    let encoded: usize = domains.iter().map(|d| d.len() + 2).sum();
+    if encoded > MAX_DNSSL_LEN {
+        Err(Error::InvalidConfig(format!(
+            "{}: the domains need {} octets, a router advertisement option holds at most {}",
+            name, encoded, MAX_DNSSL_LEN
+        )))
+    } else if let Some(label) = domains.iter().flat_map(|d| d.split('.')).find(|l| l.len() > 63) {
+        Err(Error::InvalidConfig(format!(
+            "{}: label {} is longer than 63 octets",
+            name, label
+        )))
+    } else {
+        Ok(())
+    }
+}
+
+pub fn check_captive_portal(name: &str, url: &str) -> Result<(), Error> {
+    if url.len() > MAX_CAPTIVE_PORTAL_LEN {
+        Err(Error::InvalidConfig(format!(
+            "{}: a URL of {} octets does not fit in a router advertisement option (at most {})",
+            name,
+            url.len(),
+            MAX_CAPTIVE_PORTAL_LEN
+        )))
+    } else {
+        Ok(())
+    }
+}
+
 fn parse_rdnss(
     name: &str,
     fragment: &yaml::Yaml,
@@ -167,6 +217,9 @@ fn parse_rdnss(
                     )));
                 }
             }
+        }
+        if let ConfigValue::Value(servers) = &address {
+            check_rdnss(name, servers.len())?;
         }
         Ok((lifetime, address))
     } else {
@@ -216,6 +269,9 @@ fn parse_dnssl(
                     )));
                 }
             }
+        }
+        if let ConfigValue::Value(domains) = &domains {
+            check_dnssl(name, domains)?;
         }
         Ok((lifetime, domains))
     } else {
@@ -337,7 +393,10 @@ fn parse_interface(name: &str, fragment: &yaml::Yaml) -> Result<Option<Interface
                 (Some("dns-servers"), e) => rdnss = parse_rdnss("dns-servers", e)?,
                 (Some("dns-search"), e) => dnssl = parse_dnssl("dns-search", e)?,
                 (Some("captive-portal"), e) => {
-                    captive_portal = ConfigValue::from_option(parse_string("captive-portal", e)?)
+                    captive_portal = ConfigValue::from_option(parse_string("captive-portal", e)?);
+                    if let ConfigValue::Value(url) = &captive_portal {
+                        check_captive_portal("captive-portal", url)?;
+                    }
                 }
                 (Some(key), _) => {
                     return Err(Error::InvalidConfig(format!(
